@@ -320,6 +320,13 @@ func (pi *p2Inst) paramSets(thorough bool) []p2Param {
 			p2Param{t, 2, 1, nil, false}, p2Param{t, 4, 3, nil, false}, p2Param{t, 8, 56, nil, false}, p2Param{t, rf, 0, nil, false})
 		if pi.small && pi.tag != "goldilocks" {
 			out = append(out, p2Param{t, rf, rp, nil, true}, p2Param{t, rf, rp + 1, nil, false})
+			// the round numbers of the other specialised kernel with this width, through both constructors: a kernel
+			// selected for the wrong triple runs the wrong number of rounds
+			for _, cr := range [][2]int{{8, 13}, {8, 21}, {6, 21}, {6, 13}} {
+				if cr[0] != rf || cr[1] != rp {
+					out = append(out, p2Param{t, cr[0], cr[1], nil, false}, p2Param{t, cr[0], cr[1], &custom, false})
+				}
+			}
 		}
 		if thorough {
 			out = append(out, p2Param{t, 2, 0, nil, false}, p2Param{t, 6, 7, &custom, false}, p2Param{t, 10, 30, nil, false})
